@@ -59,3 +59,84 @@ def relayout(Aq, layout):
         big[sl] = Aq
         return big[sl]
     raise ValueError(layout)
+
+
+# ------------------------------------------------------------------ "unusual but legal" input variants
+# One enumerated list shared by the checks: every numerical check runs its clause oracle on each of these
+# variants of a matrix of the requested shape, besides its own structure classes.  The list is the union of
+# the input classes that independently seeded changes needed in order to manifest (DESIGN section 11).
+def xf_names(m, n, hermitian=False):
+    names = [f"cm:{G.mask_name(k)}" for k in range(1, 15)]
+    names += ["equalmod", "constant", "rowgraded", "colgraded", "circulant_q", "toeplitz_q", "checker", "lay:F", "lay:T", "lay:view"]
+    if m == n:
+        names += [f"sp:{k}" for k in G.SPECIAL_KINDS]
+    if hermitian:
+        names = [x for x in names if x not in ("rowgraded", "colgraded", "toeplitz_q")] + ["congraded"]
+        names = [x for x in names if not x.startswith("sp:") or x[3:] in ("exchange", "ones", "hadamard_like", "path_laplacian")]
+    return names
+
+
+def _hermitize(A):
+    A = 0.5 * (A + O.qH(A))
+    for i in range(A.shape[0]):
+        A[i, i, 1:] = 0.0
+    return A
+
+
+def xf_build(name, m, n, fill, hermitian=False):
+    """-> (A float (m,n,4), layout).  Deterministic function of (name, shape, fill stream)."""
+    lay = "C"
+    base = fill.quat(m, n, bits=4, lo=-24, hi=24)
+    for i in range(min(m, n)):
+        if not base[i, i].any():
+            base[i, i, 0] = 1.0
+    if hermitian:
+        assert m == n
+        base = _hermitize(base)
+    if name.startswith("cm:"):
+        mask = sum(1 << "1ijk".index(c) for c in name[3:])
+        A = G.apply_component_mask(base, mask)
+    elif name.startswith("sp:"):
+        A = G.special(name[3:], n)
+    elif name.startswith("lay:"):
+        A, lay = base, name[4:]
+    elif name == "equalmod":  # every entry a signed unit: all moduli exactly equal (pivot / ordering ties everywhere)
+        idx = fill.ints((m, n), 0, 7)
+        A = np.zeros((m, n, 4))
+        for p_ in np.ndindex(m, n):
+            A[p_] = G.SIGNED_UNITS[idx[p_]]
+        if hermitian:
+            A = _hermitize(A + O.qH(A))
+    elif name == "constant":  # all entries exactly equal (rank one)
+        A = np.zeros((m, n, 4))
+        A[:, :] = [1.0, 0.0, 0.0, 0.0] if hermitian else [0.5, -1.0, 0.25, 2.0]
+    elif name == "rowgraded":
+        A = base * np.array([2.0 ** (-9 * i) for i in range(m)])[:, None, None]
+    elif name == "colgraded":
+        A = base * np.array([2.0 ** (-9 * j) for j in range(n)])[None, :, None]
+    elif name == "congraded":  # D A D with graded D: Hermitian, badly scaled
+        d = np.array([2.0 ** (-5 * i) for i in range(n)])
+        A = base * d[:, None, None] * d[None, :, None]
+    elif name == "circulant_q":
+        c = fill.quat(max(m, n), 1, bits=3, lo=-12, hi=12)[:, 0]
+        A = np.zeros((m, n, 4))
+        for i in range(m):
+            for j in range(n):
+                A[i, j] = c[(i - j) % max(m, n)]
+        if hermitian:
+            A = _hermitize(A)
+    elif name == "toeplitz_q":
+        c = fill.quat(m + n, 1, bits=3, lo=-12, hi=12)[:, 0]
+        A = np.zeros((m, n, 4))
+        for i in range(m):
+            for j in range(n):
+                A[i, j] = c[i - j + n - 1]
+    elif name == "checker":  # exact zeros on a checkerboard
+        A = base.copy()
+        for i in range(m):
+            for j in range(n):
+                if (i + j) % 2:
+                    A[i, j] = 0.0
+    else:
+        raise ValueError(name)
+    return A, lay
